@@ -510,7 +510,15 @@ def months_inc(start_date, months, eomonth=False):
     if start_date < 0 or start_date >= DATE_MAX_INT:
         return NUM_ERROR
     y, m, d = date_from_int(math.floor(start_date))
-    y, m, _ = normalize_year(y, m + math.trunc(months), 1)
+    try:
+        months = math.trunc(months)
+    except (OverflowError, ValueError):
+        # infinite / not a number
+        return NUM_ERROR
+    # carry the months into the year (month lengths of years outside the
+    # calendar are never asked for)
+    y, m = divmod(y * 12 + m - 1 + months, 12)
+    m += 1
     if not (1900 <= y <= 9999):
         return NUM_ERROR
     last_day = max_days_in_month(m, y)
@@ -666,7 +674,11 @@ def yearfrac(start_date, end_date, basis=0):
     #   YEARFRAC-function-3844141e-c76d-4143-82b6-208454ddc6a8
     if isinstance(basis, (bool, str)):
         return VALUE_ERROR
-    basis = 0 if basis is None else int(basis)
+    try:
+        basis = 0 if basis is None else int(basis)
+    except (OverflowError, ValueError):
+        # infinite / not a number
+        return NUM_ERROR
     if basis not in {0, 1, 2, 3, 4}:
         return NUM_ERROR
 
